@@ -135,10 +135,13 @@ pub fn ref_parse_atom(raw: &str, case: CaseMatching, norm: Normalization) -> RAt
     let normalize = match norm {
         Normalization::Never => vec![false],
         Normalization::Smart => {
+            // judged on the stored (case folded) needle; where only the typed text has a normalizable
+            // character (U+017F and three others) both readings of "the atom" are accepted, but a stored
+            // needle with a normalizable character and normalization on could never match anything
             let a = original.iter().all(|&c| chars::normalize(c) == c);
             let b = needle.iter().all(|&c| chars::normalize(c) == c);
-            if a == b {
-                vec![a]
+            if a == b || !b {
+                vec![b]
             } else {
                 vec![a, b]
             }
@@ -205,10 +208,13 @@ pub fn ref_new_atom(raw: &str, case: CaseMatching, norm: Normalization, kind: At
     let normalize = match norm {
         Normalization::Never => vec![false],
         Normalization::Smart => {
+            // judged on the stored (case folded) needle; where only the typed text has a normalizable
+            // character (U+017F and three others) both readings of "the atom" are accepted, but a stored
+            // needle with a normalizable character and normalization on could never match anything
             let a = original.iter().all(|&c| chars::normalize(c) == c);
             let b = needle.iter().all(|&c| chars::normalize(c) == c);
-            if a == b {
-                vec![a]
+            if a == b || !b {
+                vec![b]
             } else {
                 vec![a, b]
             }
@@ -338,12 +344,70 @@ fn escape_literal(t: &[char]) -> String {
     s
 }
 
+/// every character that case folding or normalization moves, alone and next to other characters, under every
+/// setting: the interplay of case folding and smart normalization depends on single table entries
+fn sweep_moved_chars(opts: &Opts, rep: &mut Report) {
+    let mut moved = Vec::new();
+    for u in 0x80..=0x10FFFFu32 {
+        let Some(c) = char::from_u32(u) else { continue };
+        if chars::to_lower_case(c) != c || chars::normalize(c) != c {
+            moved.push(c);
+        }
+    }
+    for (k, &c) in moved.iter().enumerate() {
+        for case in [CaseMatching::Respect, CaseMatching::Ignore, CaseMatching::Smart] {
+            for norm in [Normalization::Never, Normalization::Smart] {
+                for text in [format!("{c}"), format!("{c}\u{4e2d}"), format!("a{c}"), format!("^{c}b$")] {
+                    let case_id = format!("{}:{}:sweep{}", opts.seed, opts.shard, k);
+                    rep.count("c14.sweep-parsed");
+                    let res = crate::refm::caught(|| {
+                        let real = Pattern::parse(&text, case, norm);
+                        let reference = ref_parse(&text, case, norm);
+                        let mut d = compare(&real.atoms, &reference);
+                        if d.is_none() {
+                            let a = Atom::new(&text, case, norm, AtomKind::Fuzzy, false);
+                            let r = ref_new_atom(&text, case, norm, AtomKind::Fuzzy, false);
+                            d = compare(std::slice::from_ref(&a), std::slice::from_ref(&r)).map(|d| format!("Atom::new: {d}"));
+                        }
+                        (d, format!("{:?}", real.atoms))
+                    });
+                    match res {
+                        Ok((Some(diff), real)) => {
+                            let what: String = diff.split(':').nth(1).unwrap_or(&diff).split_whitespace().take(1).collect();
+                            rep.violation(
+                                "C14",
+                                "parse-differs-from-grammar",
+                                format!("sweep {what} {case:?}/{norm:?}"),
+                                jobj! {"pattern" => show_chars(&text.chars().collect::<Vec<_>>()), "settings" => format!("{case:?}/{norm:?}"),
+                                       "difference" => diff, "real" => real, "case_id" => case_id},
+                            );
+                        }
+                        Ok((None, _)) => (),
+                        Err(msg) => {
+                            let loc = msg.rsplit(" @ ").next().unwrap_or("").to_owned();
+                            if loc.starts_with("/repo/") {
+                                rep.violation("C14", "panic-in-pattern-api", format!("panic@{loc}"), jobj! {"message" => msg, "case_id" => case_id});
+                            } else {
+                                rep.inconclusive(format!("monitor panicked outside the repository code: {msg}"));
+                            }
+                        }
+                    }
+                }
+            }
+        }
+    }
+    rep.add("c14.sweep-chars", moved.len() as u64);
+}
+
 pub fn run(opts: &Opts, rep: &mut Report) {
     let range: Box<dyn Iterator<Item = u64>> = match opts.replay {
         Some(i) => Box::new(i..i + 1),
         None => Box::new(0..opts.cases),
     };
     let mut reused = Pattern::parse("", CaseMatching::Smart, Normalization::Smart);
+    if opts.replay.is_none() && opts.shard % 4 == 0 {
+        sweep_moved_chars(opts, rep);
+    }
     for idx in range {
         if idx % 256 == 0 && rep.elapsed() > opts.time_limit {
             rep.note(format!("time limit reached after {idx} cases"));
